@@ -19,6 +19,7 @@ is: `C03_full_counterexample` (finding F-9, `Frame.size` contains the text of wa
 -/
 import PrimaiteModel.Lemmas.NondetDischarge
 import PrimaiteModel.Gen.SharedState
+import PrimaiteModel.Gen.NondetOutput
 
 namespace Primaite.Noninterf
 open Primaite.Gen.Nondet
@@ -262,20 +263,25 @@ theorem C03_gen_draw_families_seeded :
 /-- **What `env.reset(seed=x)` does to the generators, for EVERY `x`** (with `generate_seed_value = False`): a
 non-negative seed — 0 included — re-seeds with it; `None` and `-1` leave the generators alone; anything below `-1` raises. -/
 theorem C03_reset_seed_spec :
-    (∀ s : Nat, codeShape.resetAct (some (s : Int)) false = .seedWith s) ∧
+    (∀ s : Nat, s < 4294967296 → codeShape.resetAct (some (s : Int)) false = .seedWith s) ∧
     codeShape.resetAct none false = .keep ∧ codeShape.resetAct (some (-1)) false = .keep ∧
-    (∀ n : Int, n < -1 → codeShape.resetAct (some n) false = .raise) := by
-  refine ⟨fun s => ?_, by decide, by decide, fun n hn => ?_⟩
+    (∀ n : Int, n < -1 → codeShape.resetAct (some n) false = .raise) ∧
+    (∀ s : Nat, 4294967296 ≤ s → ∀ gen, codeShape.resetAct (some (s : Int)) gen = .raiseHalfSeeded) := by
+  refine ⟨fun s hs => ?_, by decide, by decide, fun n hn => ?_, fun s hs gen => ?_⟩
   · have h1 : ¬ ((s : Int) = -1) := by omega
     have h2 : ¬ ((s : Int) < -1) := by omega
-    simp [codeShape, SeedShape.resetAct, SeedShape.setRandomSeed, SeedTest.eval, h1, h2]
+    simp [codeShape, SeedShape.resetAct, SeedShape.setRandomSeed, SeedTest.eval, h1, h2, hs]
   · have h1 : ¬ (n = -1) := by omega
     simp [codeShape, SeedShape.resetAct, SeedShape.setRandomSeed, SeedTest.eval, h1, hn]
+  · have h1 : ¬ ((s : Int) = -1) := by omega
+    have h2 : ¬ ((s : Int) < -1) := by omega
+    have h3 : ¬ (s < 4294967296) := by omega
+    simp [codeShape, SeedShape.resetAct, SeedShape.setRandomSeed, SeedTest.eval, h1, h2, h3]
 
 /-- the caller's `reset(seed=s)`, `s ≥ 0`, is the model's re-seeding reset — also for `s = 0` -/
-theorem toOps_reset_some {Act : Type} (s : Nat) (cs : List (COp Act)) :
+theorem toOps_reset_some {Act : Type} (s : Nat) (hs : s < 4294967296) (cs : List (COp Act)) :
     codeShape.toOps false (.reset (some (s : Int)) :: cs) = .reset (some s) :: codeShape.toOps false cs := by
-  simp only [SeedShape.toOps, SeedShape.toOp, C03_reset_seed_spec.1 s]
+  simp only [SeedShape.toOps, SeedShape.toOp, C03_reset_seed_spec.1 s hs]
 
 /-- the caller's `reset()` is the model's reset that leaves the generators alone -/
 theorem toOps_reset_none {Act : Type} (cs : List (COp Act)) :
@@ -288,11 +294,11 @@ two processes in arbitrary states that are about to start the same episode index
 after `env.reset(seed=s)`. -/
 theorem C03_code_reseed_reproduces_agree {ι ι' Cfg σ Act : Type} [DecidableEq ι] [DecidableEq ι'] (g : Fixed)
     (sim : Sim Cfg σ Act) (sched : Nat → Cfg) (ρ : Rho ι) (ρ' : Rho ι') (hv : ρ.Valid) (hv' : ρ'.Valid)
-    (hs : sim.Safe g.seeds (StampLenAgree g ρ ρ')) (p p' : Proc σ) (he : p.episode = p'.episode) (s : Nat)
+    (hs : sim.Safe g.seeds (StampLenAgree g ρ ρ')) (p p' : Proc σ) (he : p.episode = p'.episode) (s : Nat) (hs32 : s < 4294967296)
     (cs : List (COp Act)) :
     canonRun [] (runOps g ρ sim sched p (codeShape.toOps false (.reset (some (s : Int)) :: cs))) =
       canonRun [] (runOps g ρ' sim sched p' (codeShape.toOps false (.reset (some (s : Int)) :: cs))) := by
-  rw [toOps_reset_some]
+  rw [toOps_reset_some s hs32]
   exact C03_reseed_reproduces_agree g sim sched ρ ρ' hv hv' hs p p' he s _
 
 /-- **The generators right after `reset(seed=s)` are the same in every process and after every history** (the rig's
@@ -479,13 +485,14 @@ theorem C03_reseed_reproduces {ι ι' Cfg σ Act : Type} [DecidableEq ι] [Decid
       canonRun [] (runOps g ρ' sim sched p' (.reset (some s) :: ops)) :=
   C03_reseed_reproduces_agree g sim sched ρ ρ' hv hv' (hs.of_fixedWidth hw ρ ρ') p p' he s ops
 
-/-- **reseed_reproduces in the caller's vocabulary, FULL** (every seed value `s ≥ 0`, zero included). -/
+/-- **reseed_reproduces in the caller's vocabulary, FULL** (every seed value `0 ≤ s ≤ 2³²−1` — all that numpy accepts —, zero included). -/
 theorem C03_code_reseed_reproduces {ι ι' Cfg σ Act : Type} [DecidableEq ι] [DecidableEq ι'] (g : Fixed) (hw : g.FixedWidth)
     (sim : Sim Cfg σ Act) (sched : Nat → Cfg) (ρ : Rho ι) (ρ' : Rho ι') (hv : ρ.Valid) (hv' : ρ'.Valid)
-    (hs : sim.Safe g.seeds True) (p p' : Proc σ) (he : p.episode = p'.episode) (s : Nat) (cs : List (COp Act)) :
+    (hs : sim.Safe g.seeds True) (p p' : Proc σ) (he : p.episode = p'.episode) (s : Nat) (hs32 : s < 4294967296)
+    (cs : List (COp Act)) :
     canonRun [] (runOps g ρ sim sched p (codeShape.toOps false (.reset (some (s : Int)) :: cs))) =
       canonRun [] (runOps g ρ' sim sched p' (codeShape.toOps false (.reset (some (s : Int)) :: cs))) :=
-  C03_code_reseed_reproduces_agree g sim sched ρ ρ' hv hv' (hs.of_fixedWidth hw ρ ρ') p p' he s cs
+  C03_code_reseed_reproduces_agree g sim sched ρ ρ' hv hv' (hs.of_fixedWidth hw ρ ρ') p p' he s hs32 cs
 
 /-- **generators after re-seeding, FULL.** -/
 theorem C03_generators_after_reseed {ι ι' Cfg σ Act : Type} [DecidableEq ι] [DecidableEq ι'] (g : Fixed) (hw : g.FixedWidth)
@@ -505,6 +512,58 @@ example : run repairedFixed (linkSim 520) (fun _ => ()) 0 [.step (), .reset (som
     run repairedFixed (linkSim 520) (fun _ => ()) 0 [.step (), .reset (some 3), .step ()] rhoMicros :=
   C03_run_indep_of_env repairedFixed repairedFixed_fixedWidth _ _ _ _ _ _ rhoWholeSecond_valid rhoMicros_valid
     (linkSim_safe 520 _ True trivial)
+
+/-! ## output settings must not decide WHEN a draw happens ("with logging fully on or fully off")
+
+The model has no output-setting input: a `Sim` cannot look at `save_agent_logs`.  The hole that leaves: a draw made LAZILY (inside a
+`cached_property` / `computed_field`, evaluated when somebody first looks) moves to another position of the seeded stream if the
+somebody is a statement that runs only when logs are saved (seeded change C03-d: `logger.debug(f"… {self!r}")` under
+`SIM_OUTPUT.save_agent_logs`; pydantic's repr evaluates the computed field `PeriodicAgent.start_node`). -/
+
+/-- Two scripted agents. Agent A draws its start node LAZILY (at first use, in the first step) - unless `loud`, when the construction
+logs `repr(agent)` and so forces the draw; agent B draws at construction. The first step reports both draws. -/
+def lazySim (loud : Bool) : Sim Unit (Option Nat × Nat) Unit where
+  construct _ :=
+    if loud then .rand .py 99 fun a => .rand .py 99 fun b => .ret (some a, b)
+    else .rand .py 99 fun b => .ret (none, b)
+  rebuild _ :=
+    if loud then .rand .py 99 fun a => .rand .py 99 fun b => .ret ((some a, b), [])
+    else .rand .py 99 fun b => .ret ((none, b), [])
+  step st _ :=
+    match st.1 with
+    | some a => .ret (st, [.val a, .val st.2])
+    | none => .rand .py 99 fun a => .ret ((some a, st.2), [.val a, .val st.2])
+
+/-- **Why no output-guarded code path may reach a draw.** Same seed, same actions, same environment: with logging on the lazy draw is
+made at construction (before agent B's), with logging off at the first step (after it) - the two agents swap their values. -/
+theorem C03_output_forced_draw_counterexample :
+    run demoFixed (lazySim true) (fun _ => ()) 0 [.step ()] rhoMicros ≠ run demoFixed (lazySim false) (fun _ => ()) 0 [.step ()] rhoMicros := by
+  decide
+
+open Primaite.Gen.NondetOutput in
+/-- **Gen obligation: output settings cannot move a draw.** (a) The draw sites inside lazily evaluated functions are exactly
+`PeriodicAgent.start_node` (`computed_field` + `cached_property`); (b) NO function containing a draw site is reachable by name through
+calls from output-guarded code (`if …save_* / write_*_to_terminal / *log_level…`); (c) the non-constant expressions that output-guarded
+code FORMATS (f-string fields, `repr()`, `str()`, `%`) are exactly the committed ones - plain strings, levels, host / agent names, the
+chosen action's name - none of them a model whose repr evaluates a computed field; (d) the only logger call with lazily formatted
+arguments is the committed one (its argument is an f-string). A guarded `repr(agent)`, a guarded call of `get_action`, a new lazy draw
+or a new lazily formatted object breaks this. -/
+theorem C03_gen_output_cannot_move_draws :
+    lazyDraws = [("game/agent/scripted_agents/random_agent.py", "PeriodicAgent.start_node", ["cached_property", "computed_field"])] ∧
+    guardedReach = [] ∧
+    guardedFormats =
+      [ ("game/agent/agent_log.py", "AgentLog._write_to_terminal", "level"),
+        ("game/agent/agent_log.py", "AgentLog._write_to_terminal", "msg"),
+        ("game/agent/agent_log.py", "AgentLog._write_to_terminal", "self.agent_name"),
+        ("game/agent/agent_log.py", "AgentLog._write_to_terminal", "self.timestep"),
+        ("game/game.py", "PrimaiteGame.apply_agent_actions", "action_choice"),
+        ("simulator/system/core/sys_log.py", "SysLog._write_to_terminal", "level"),
+        ("simulator/system/core/sys_log.py", "SysLog._write_to_terminal", "msg"),
+        ("simulator/system/core/sys_log.py", "SysLog._write_to_terminal", "self.hostname"),
+        ("simulator/system/core/sys_log.py", "SysLog.setup_logger", "self.hostname"),
+        ("utils/cli/dev_cli.py", "config_callback", "ctx.params.get('agent_log_level')"),
+        ("utils/cli/dev_cli.py", "config_callback", "ctx.params.get('sys_log_level')") ] ∧
+    lazyFormatArgs.map (fun x => (x.1, x.2.1)) = [("game/agent/rewards.py", "WebpageUnavailablePenalty.calculate")] := by decide
 
 /-! ## the translator tie: every site of the regenerated inventory is discharged -/
 
